@@ -28,6 +28,12 @@ ENGINE = "C03"
 OMIT = object()
 
 
+def pyparam(name, snake):
+    """Python parameter of a variable: process_name, then `self` / `kwargs` get "_" (/repo a558946)."""
+    p = scen.param_name(name, snake)
+    return p + "_" if p in ("self", "kwargs") else p
+
+
 def scalar_config(rng, want_ser=None):
     """Random configuration of the two custom scalars of the arg_probe stream."""
     cfg = {}
@@ -212,7 +218,7 @@ def run(ctx):
                 slots.append(("gen", g, op, None))
                 cmds.append([Sym("gen"), snake, ssx, vsx])
                 for c in cases:
-                    kw = [[scen.param_name(n, snake), v.sx] for n, v in c.vals.items() if v is not OMIT]
+                    kw = [[pyparam(n, snake), v.sx] for n, v in c.vals.items() if v is not OMIT]
                     slots.append(("call", g, op, c))
                     cmds.append([Sym("call"), snake, ssx, vsx, kw])
                 # K2: valid + malformed provided values
@@ -277,7 +283,7 @@ def run(ctx):
                         real = [p[0] for p in (ld.get("methods", {}).get(m, {}).get("params") or []) if p[3] != "VAR_KEYWORD"]
                         pmap = dict(zip(order, real)) if len(real) == len(order) else {}
                         for c in cases:
-                            enc = {pmap.get(n, scen.param_name(n, g.snake)): v.enc for n, v in c.vals.items() if v is not OMIT}
+                            enc = {pmap.get(n, pyparam(n, g.snake)): v.enc for n, v in c.vals.items() if v is not OMIT}
                             intended = {n: v.intent for n, v in c.vals.items() if v is not OMIT}
                             c.real = g.driver.ask({"cmd": "call_args", "method": m, "args": enc, "intended": intended})
             finally:
